@@ -17,7 +17,7 @@ static int maxbe[CIPH_N];
 static chist CH[MAXOBJ];
 static phist PH[MAXOBJ];
 static ctrans TR[MAXOBJ];
-static vh_obj OB[MAXOBJ];
+static vh_obj OB[MAXOBJ], OB2[MAXOBJ], *CUR[MAXOBJ];      /* CUR[j]: where object j's control block currently lives (it is moved now and then) */
 static int is_par[MAXOBJ], pos[MAXOBJ];
 
 static int ro_guard;           /* --prop C18: parallel-ECB state is PROT_READ while encrypt/decrypt/crypt run */
@@ -83,7 +83,7 @@ static void life_case(uint64_t idx)
         for (j = 0; j < K; ++j) {
             const vh_cipher *c = &vh_ciphers[wipe_mode ? (idx + (uint64_t)j) % CIPH_N : vh_below(&r, CIPH_N)];
             is_par[j] = wipe_mode ? (int)((idx / 3 + (uint64_t)j) & 1) : (int)vh_below(&r, 2);
-            memset(&OB[j], 0, sizeof(OB[j]));
+            memset(&OB[j], 0, sizeof(OB[j])); memset(&OB2[j], 0xA5, sizeof(OB2[j])); CUR[j] = &OB[j];
             OB[j].id = j; OB[j].cap = wipe_mode ? (int)((idx / 6) % (uint64_t)(maxbe[c->id] + 1)) : (int)vh_below(&r, (uint32_t)maxbe[c->id] + 1);
             if (is_par[j]) { phist_gen(&PH[j], c, &r, g); hh ^= phist_hash(&PH[j]) * (uint64_t)(j + 3); }
             else { chist_gen(&CH[j], c, &r, g); hh ^= chist_hash(&CH[j]) * (uint64_t)(j + 3); }
@@ -109,7 +109,13 @@ static void life_case(uint64_t idx)
         j = (int)vh_below(&r, (uint32_t)K);
         while (pos[j] >= (is_par[j] ? PH[j].n : CH[j].n)) j = (j + 1) % K;
         snprintf(pfx, sizeof(pfx), "%s:%s", prop, objname(j, nm, sizeof(nm)));
-        if (is_par[j]) phist_exec(&PH[j], pos[j], &OB[j], &TR[j], pfx); else chist_exec(&CH[j], pos[j], &OB[j], &TR[j], pfx);
+        if (!vh_below(&r, 8)) {
+            /* the caller moves the control block (a plain struct of pointers: array growth, sorting, return by value): the
+               bytes go to a new address, the old place is overwritten; the object must not care where its handle lives */
+            vh_obj *src = CUR[j], *dst = (src == &OB[j]) ? &OB2[j] : &OB[j];
+            *dst = *src; memset(&src->H, 0xA5, sizeof(src->H)); CUR[j] = dst; VH_COUNT("control_block_relocations", 1);
+        }
+        if (is_par[j]) phist_exec(&PH[j], pos[j], CUR[j], &TR[j], pfx); else chist_exec(&CH[j], pos[j], CUR[j], &TR[j], pfx);
         pos[j]++; remaining--;
         VH_COUNT("api_calls", 1);
     }
